@@ -187,19 +187,26 @@ func (x *caseExec) reference(r *run, st State, label string) {
 		if b.Status != want {
 			x.viol("reference", "status", fmt.Sprintf("%s: after %s: issue %d is %s, bug is %s", x.c, label, is.IID, is.State, b.Status), -2)
 		}
-		ls := append([]string{}, is.Labels...)
+		var ls []string
+		for _, l := range is.Labels {
+			ls = append(ls, refOneLine(l))
+		}
 		sort.Strings(ls)
 		if !equalStrings(ls, b.Labels) {
 			x.viol("reference", "labels", fmt.Sprintf("%s: after %s: issue %d has labels %v, bug has %v", x.c, label, is.IID, ls, b.Labels), -2)
 		}
-		n := 1
+		// comments: the description, then one per user note, each with the text Cleanup documents
+		// (CRLF -> LF, control characters other than \n \r \t removed, trimmed)
+		wantC := []string{r.tr.Users[is.Author].Username + ": " + short(refText(is.Description))}
 		for _, nt := range is.Notes {
 			if !nt.System {
-				n++
+				wantC = append(wantC, r.tr.Users[nt.Author].Username+": "+short(refText(nt.Body)))
 			}
 		}
-		if len(b.Comments) != n {
-			x.viol("reference", "comment-count", fmt.Sprintf("%s: after %s: issue %d has description + %d notes, bug has %d comments", x.c, label, is.IID, n-1, len(b.Comments)), -2)
+		if len(b.Comments) != len(wantC) {
+			x.viol("reference", "comment-count", fmt.Sprintf("%s: after %s: issue %d has description + %d notes, bug has %d comments", x.c, label, is.IID, len(wantC)-1, len(b.Comments)), -2)
+		} else if !equalStrings(b.Comments, wantC) {
+			x.viol("reference", "comment-text", fmt.Sprintf("%s: after %s: issue %d: expected comments %v, bug has %v", x.c, label, is.IID, wantC, b.Comments), -2)
 		}
 		// title: what the importer's cleanupTitle documents (control characters stripped, trimmed,
 		// nothing left => placeholder), applied to the tracker's current title. Skipped when a
@@ -238,6 +245,30 @@ func refTitle(title string) string {
 	}
 	if !visible {
 		return emptyTitlePlaceholder
+	}
+	return strings.TrimSpace(sb.String())
+}
+
+// refOneLine: every control character removed, trimmed.
+func refOneLine(s string) string {
+	var sb strings.Builder
+	for _, r := range s {
+		if !unicode.IsControl(r) {
+			sb.WriteRune(r)
+		}
+	}
+	return strings.TrimSpace(sb.String())
+}
+
+// refText: multi-line text; CRLF becomes LF, control characters except \n, \r, \t removed, trimmed.
+func refText(s string) string {
+	s = strings.ReplaceAll(s, "\r\n", "\n")
+	var sb strings.Builder
+	for _, r := range s {
+		if unicode.IsControl(r) && r != '\n' && r != '\r' && r != '\t' {
+			continue
+		}
+		sb.WriteRune(r)
 	}
 	return strings.TrimSpace(sb.String())
 }
